@@ -44,6 +44,9 @@ class Vals:
         for t in ALL:
             out.append('%s V_%s[] = {%s};' % (cname(t), t, ', '.join(lit(t, v) for v in self.tab[t])))
             out.append('%s id_%s(%s x) { return x; }' % (cname(t), t, cname(t)))
+        out.append('enum EU { EU_A, EU_B = 7 }; enum ES { ES_N = -1, ES_P = 9 };')
+        out.append('enum EU VEU[] = {%s};' % ', '.join('(enum EU)%s' % lit('u32', v) for v in self.tab['u32']))
+        out.append('enum ES VES[] = {%s};' % ', '.join('(enum ES)%s' % lit('i32', v) for v in self.tab['i32']))
         out.append('''
 void vout(long id, int kind, ...) {
   va_list ap; va_start(ap, kind);
@@ -65,6 +68,7 @@ struct S12 { int a, b, c; } PA12[16]; char PA1[16]; short PA2[16]; int PA4[16]; 
         out.append('void vout(long id, int kind, ...);')
         out.append('struct S12 { int a, b, c; }; extern struct S12 PA12[16]; extern char PA1[16]; extern short PA2[16]; extern int PA4[16]; extern long PA8[16];')
         out.append('enum { EN_NEG = -5, EN_BIG = 2147483647, EN_ONE = 1, EN_Z = 0 };')
+        out.append('enum EU { EU_A, EU_B = 7 }; enum ES { ES_N = -1, ES_P = 9 }; extern enum EU VEU[]; extern enum ES VES[];')
         return '\n'.join(out) + '\n'
 
 
@@ -244,8 +248,52 @@ def gen_bitfield_updates(rng):
     return obs, len(cells)
 
 
+def gen_enum_cells(V, rng, npairs):
+    """Operands of enumerated type: an enum without negative enumerators behaves as unsigned int, one with a negative enumerator as int
+    (gcc = clang; the references confirm each observation).  Conversions to every type, unary and binary operators, ?:."""
+    obs = []
+    cells = set()
+    for (en, t) in (('EU', 'u32'), ('ES', 'i32')):
+        leaves = [leaf('V%s[%d]' % (en, i), t, V.tab[t][i]) for i in range(len(V.tab[t]))]      # objects of enumerated type, defined by the gcc-compiled companion
+        for tt in ALL:
+            key = 'C01|enum|cast|%s|%s' % (en, tt)
+            cells.add(key)
+            for lf in rng.sample(leaves, min(len(leaves), 6)):
+                obs.append(obs_value(('cast', tt, lf), key, None))
+        for op in UNOPS:
+            key = 'C01|enum|u%s|%s|-' % (op, en)
+            cells.add(key)
+            for lf in rng.sample(leaves, 4):
+                o = obs_value(('un', op, lf), key, None)
+                if o:
+                    obs.append(o)
+            obs.append(obs_sign(('un', op, leaves[0]), key))
+        for op in BINOPS:
+            for tr in rng.sample(ALL, 3):
+                key = 'C01|enum|%s|%s|%s' % (op, en, tr)
+                cells.add(key)
+                for _ in range(npairs):
+                    lf = rng.choice(leaves)
+                    b = V.small(rng, tr) if op in ('<<', '>>') else V.pick(rng, tr)
+                    for e in (('bin', op, lf, b), ('bin', op, b, lf)):
+                        if op in ('<<', '>>') and e[2] is b:
+                            continue
+                        o = obs_value(e, key, None)
+                        if o:
+                            obs.append(o)
+                obs.append(obs_sign(('bin', op, leaves[0], V.pick(rng, tr)), key))
+        key = 'C01|enum|?:|%s|-' % en
+        cells.add(key)
+        obs.append(obs_value(('cond', V.pick(rng, 'i32'), rng.choice(leaves), V.pick(rng, 'i8')), key, None))
+        obs.append(obs_sign(('cond', V.pick(rng, 'i32'), rng.choice(leaves), V.pick(rng, 'i8')), key))
+    return [o for o in obs if o], len(cells)
+
+
 def gen_grid(ctx, V, rng, npairs):
     obs, cells = gen_bitfield_cells(V, rng, max(1, npairs // 6))
+    o3, c3 = gen_enum_cells(V, rng, max(1, npairs // 6))
+    obs += o3
+    cells += c3
     o2, c2 = gen_bitfield_updates(rng)
     obs += o2
     cells += c2
